@@ -18,7 +18,7 @@ MultiCont(h) == \E b \in 1..Len(h) : Len(ContsOf(h, b)) >= 2
 Deep(h) == \E b \in 2..Len(h) : ContsOf(h, b) # <<>>
 Reject(e, item) ==
   /\ PrintT(<<"BAD", ToJson([case |-> e.case, at |-> l,
-                             cfg |-> [ver |-> cfg.ver, crt |-> cfg.crt, rev |-> cfg.rev, wf |-> cfg.wf, nblocks |-> cfg.nblocks],
+                             cfg |-> [ver |-> cfg.ver, crt |-> cfg.crt, rev |-> cfg.rev, gap |-> cfg.gap, wf |-> cfg.wf, nblocks |-> cfg.nblocks],
                              items |-> <<item @@ [ver |-> cfg.ver, multicont |-> MultiCont(cfg.blocks), deep |-> Deep(cfg.blocks)]>>])>>)
   /\ bad' = bad + 1 /\ UNCHANGED <<cfg, stats>>
 
